@@ -1,8 +1,8 @@
 (* C04/Props.v — the property theorems, nothing else.
-   Model: C04/Model.v.  Proofs: Glob.v, Sound.v, Assoc.v, Prune.v, Shrink.v, Coherent.v. *)
+   Model: C04/Model.v.  Proofs: Glob.v, Sound.v, Assoc.v, Prune.v, Shrink.v, Coherent.v, Cmd.v. *)
 From Coq Require Import List NArith ZArith Bool.
 Import ListNotations.
-Require Import Base.Wire Base.PyStr C04.Model C04.Glob C04.Sound C04.Prune C04.Shrink C04.Coherent.
+Require Import Base.Wire Base.PyStr C04.Model C04.Glob C04.Sound C04.Prune C04.Shrink C04.Coherent C04.Cmd.
 Require C03.Model.
 
 (* The regex the code builds from a hostmask pattern decides exactly the
@@ -111,3 +111,51 @@ Theorem C04_secure_refused :
   forall now u h, u_secure u = true -> mask_match u h = false -> addAuth now u h = Raise ValueError.
 Proof. exact secure_login_refused. Qed.
 Print Assumptions C04_secure_refused.
+
+(* ---- the command layer: the User plugin commands hostmask add / remove,
+   identify, unidentify, changename, register (Model.run_cmd; which except
+   clause catches what around users.setUser is the regenerated table gen.T04) ---- *)
+
+(* Full statement: a command that is REFUSED (anything but "The operation
+   succeeded") leaves the user database exactly as it was (same accounts, names,
+   masks, secure flags; same logins up to the lazy removal of expired ones).
+   Proved for every reachable state (Inv), clock, timeout, sender, arguments and
+   oracle (passwords, owner flag, syntax checks), on the domain no_trace_dom:
+   no lookup of the command ran the "Multiple matches" branch, and
+     - hostmask add: the mask is not yet a mask of an account - every refusal
+       qualifies, the one by users.setUser included: its DuplicateHostmask
+       reaches the handler that undoes user.addHostmask (table T04);
+     - the other commands: the refusal did not come out of users.setUser ... *)
+Theorem C04_refused_command_no_trace :
+  forall t now o s P c,
+    Inv s -> ids_bounded s ->
+    let out := run_cmd t now o s P c in
+    r_ok out = false -> no_trace_dom s c out ->
+    same_db t now (s_users s) (s_users (r_st out)).
+Proof. exact refused_no_trace. Qed.
+Print Assumptions C04_refused_command_no_trace.
+
+(* ... and it fails outside: `identify` refused by users.setUser (a mask of the
+   account equals a hostmask another account is logged in from) answers with an
+   error but the login has been applied (finding F23). *)
+Theorem C04_refused_command_no_trace_refuted :
+  exists t now o s P c,
+    let out := run_cmd t now o s P c in
+    r_ok out = false /\ r_amb out = false /\ r_set out = true /\
+    ~ same_db t now (s_users s) (s_users (r_st out)).
+Proof. exact refused_no_trace_refuted. Qed.
+Print Assumptions C04_refused_command_no_trace_refuted.
+
+(* An ACCEPTED hostmask add keeps the invariant behind
+   C04_cache_coherent_on_domain (so lookups after it still answer the one
+   account a recomputation finds), on the domain where setUser's overlap test
+   was sufficient for the edited account (set_dom at the point of the edit). *)
+Theorem C04_accepted_add_keeps_invariant :
+  forall t now o s P name mask,
+    Inv s -> ids_bounded s ->
+    r_ok (run_cmd t now o s P (CAdd name mask)) = true ->
+    (forall s4 amb uid u1, add_prepare t now o s P name mask = PGo s4 amb uid u1 ->
+                           set_dom s4 uid (set_masks u1 (iset_add mask (u_masks u1)))) ->
+    Inv (r_st (run_cmd t now o s P (CAdd name mask))) /\ ids_bounded (r_st (run_cmd t now o s P (CAdd name mask))).
+Proof. exact accepted_add_keeps_invariant. Qed.
+Print Assumptions C04_accepted_add_keeps_invariant.
